@@ -24,7 +24,7 @@ func init() {
 	}, c02)
 	reg("C03", Meta{
 		Technique:   "typestate rule for pooled hashers (acquire / use / release on every path), access-kind rule (atomic-only toggle word), ordering / guard rules in the concurrent node writer",
-		Explanation: "C03 (BMT hash), structural conditions without which pooled, concurrent use cannot be correct: (T1) at every bmtpool.Get site in the program the hasher is returned to the pool on every path to the function's exit exactly once (explicitly or by defer), and no hasher method is called after the release; (W1) the per-node toggle word node.state is touched only as the operand of sync/atomic operations; (F1) in Hasher.writeNode, per loop iteration, the child hash is stored into left/right before toggle(), the parent hash is computed from (n.left, n.right) only on the toggle()==false branch (the second arriver), and the result channel is written only when the root was passed (n == nil). Not decided: the hash values themselves, writeFinalNode's zero-subtree protocol, buffer reuse.",
+		Explanation: "C03 (BMT hash), structural conditions without which pooled, concurrent use cannot be correct: (T1) at every bmtpool.Get site in the program the hasher is returned to the pool on every path to the function's exit exactly once (explicitly or by defer), and no hasher method is called after the release; (W1) the per-node toggle word node.state is touched only as the operand of sync/atomic operations; (F1) in Hasher.writeNode, per loop iteration, the child hash is stored into left/right before toggle(), the parent hash is computed from (n.left, n.right) only on the toggle()==false branch (the second arriver), and the result channel is written only when the root was passed (n == nil); (K2) Hasher.Hash zero-fills the open section from the write cursor using the whole zero section (pooled trees keep the previous chunk's bytes in their buffer). Not decided: the hash values themselves, writeFinalNode's zero-subtree protocol, buffer reuse.",
 	}, c03)
 }
 
@@ -537,6 +537,59 @@ func c03(r *core.Run) {
 	r.Check("C03.W1", "C03.W1@pkg/bmt.node#state atomic-only", pos, okAtomic,
 		"the concurrent toggle word is only accessed through sync/atomic", "node.state is read or written non-atomically: the two child goroutines can both see 'first' (or both 'second')")
 	r.Floor("C03.W1", "accesses to node.state", nAcc, 1)
+
+	// K2: pooled trees are reused without clearing their buffer, so Hash must zero the rest of
+	// the open section whatever was written before: the padding copy starts at the write
+	// cursor (h.size) and its source is the WHOLE zero section (a source shortened by some
+	// other cursor leaves stale bytes of the previous chunk in the hashed section)
+	if hf := w.Func("pkg/bmt", "(*Hasher).Hash"); hf == nil {
+		r.Fatal("unresolved anchor pkg/bmt.(*Hasher).Hash")
+	} else {
+		r.Saw(core.FuncName(hf))
+		r.Eval(core.EdgeCount(hf))
+		isZeroSection := func(v ssa.Value) bool {
+			p, ok := core.LoadedFrom(core.Forward(v))
+			if !ok {
+				return false
+			}
+			g, ok := p.(*ssa.Global)
+			return ok && g.Name() == "zerosection"
+		}
+		n := 0
+		core.EachInstr(hf, func(_ *ssa.BasicBlock, _ int, in ssa.Instruction) {
+			c, ok := in.(*ssa.Call)
+			if !ok {
+				return
+			}
+			if _, isCopy := isBuiltinCall(c, "copy"); !isCopy {
+				return
+			}
+			src := c.Call.Args[1]
+			whole := isZeroSection(src)
+			if sl, isSl := src.(*ssa.Slice); isSl && isZeroSection(sl.X) {
+				lo, loC := int64(0), true
+				if sl.Low != nil {
+					lo, loC = core.ConstInt(sl.Low)
+				}
+				whole = loC && lo == 0 && sl.High == nil
+				if !whole {
+					n++ // still the padding copy, but from a shortened source
+					r.Check("C03.K2", core.Key("C03.K2", hf, "final section padded from the whole zero section"), c.Pos(), false,
+						"the last, partially written section is zero-filled from the write cursor to its end", "the zero padding is copied from a re-sliced (shortened) zero section: bytes of the previous chunk left in a pooled tree's buffer can remain inside the section that is hashed")
+					return
+				}
+			}
+			if !whole {
+				return
+			}
+			n++
+			dst, isSl := c.Call.Args[0].(*ssa.Slice)
+			okDst := isSl && dst.High == nil && dst.Low != nil && loadsField("pkg/bmt.Hasher", "size")(core.Forward(dst.Low))
+			r.Check("C03.K2", core.Key("C03.K2", hf, "final section padded from the whole zero section"), c.Pos(), okDst,
+				"the last, partially written section is zero-filled from the write cursor to its end", "the zero padding does not start at the write cursor h.size")
+		})
+		r.Floor("C03.K2", "zero-padding copies in Hasher.Hash", n, 1)
+	}
 
 	// F1 writeNode
 	fn := w.Func("pkg/bmt", "(*Hasher).writeNode")
